@@ -509,7 +509,7 @@ def _num(x):
     return 0
 
 
-class CaseTimeout(Exception):
+class CaseTimeout(BaseException):
     pass
 
 
@@ -599,7 +599,13 @@ def model_request(case):
 
 def impl(case):
     if case["op"] == "frame_run":
-        return run_frame(case)
+        old = signal.signal(signal.SIGALRM, _alarm)
+        signal.setitimer(signal.ITIMER_REAL, 20.0)
+        try:
+            return run_frame(case)
+        finally:
+            signal.setitimer(signal.ITIMER_REAL, 0)
+            signal.signal(signal.SIGALRM, old)
     return run_resub(case)
 
 
